@@ -120,8 +120,9 @@ func dischargeFunc(sv *Solver, fr *FuncResult, par int) map[string]*oblStatus {
 			defer func() { <-sem }()
 			st := &oblStatus{Name: name, Reach: true, Solver: map[string]int{}, Goal: group[0].Goal, Pos: group[0].Pos}
 			for gi, o := range group {
-				if gi >= 1 && st.Unsat == 0 || gi >= 4 {
-					break // an inconclusive attempt is enough for a vacuity guard; after an unsat one, look a bit further
+				if gi >= 1 && st.Unsat == 0 || gi >= 64 {
+					break // an inconclusive attempt is enough for a vacuity guard; after an unsat one, look further (paths
+					// are enumerated without feasibility pruning, so the first few return points may all be infeasible)
 				}
 				r := sv.solve(o.Name(), pre+o.Script, nil, true)
 				st.Instances++
@@ -138,6 +139,9 @@ func dischargeFunc(sv *Solver, fr *FuncResult, par int) map[string]*oblStatus {
 				} else {
 					st.Unknown++
 				}
+			}
+			if st.Sat == 0 && st.Unknown == 0 && st.Instances < len(group) {
+				st.Unknown++ // not every return point was tried: reachability is not refuted
 			}
 			mu.Lock()
 			stats[name] = st
@@ -327,7 +331,7 @@ func cmdVC(args []string) {
 	}
 	out := filepath.Join(outRoot, "out", "vc")
 	os.RemoveAll(out)
-	sv := newSolver(out, *tq, 60)
+	sv := newSolver(out, *tq, *tq*3)
 	_ = keep
 	bad := 0
 	for _, key := range pc.Order {
